@@ -46,6 +46,11 @@ func c06Cfg(c *core.Ctx, idx int) wl.Cfg {
 			cfg.PerWriter = 1
 		}
 	}
+	if idx%4 == 3 {
+		wraps := [][2]int{{0, 64}, {4096, 4096}, {0, 0}, {64, 0}}
+		wv := wraps[(idx/4)%len(wraps)]
+		cfg.Wrap = &wv
+	}
 	n := cfg.Writers * cfg.PerWriter
 	const T = 400 * time.Millisecond
 	switch k := (idx / 20) % 6; k {
